@@ -41,6 +41,10 @@ def explore(ck: Check, n_tables: int, slow_formats: bool) -> None:
             # headers that need cleaning, some with a distinct twin that IS the cleaned spelling ("unit cost" / "unit_cost")
             t = gen_table(rng, fixed_safe=fixed, n_rows=rng.randint(700, 1500) if big else rng.randint(0, 8),
                           cleaning_headers=(not fixed and i % 2 == 1))
+            narrow = fixed and i % 6 == 0 and len(t) > 1
+            if narrow:
+                for r in t[1:]:
+                    r[0] = r[0][:1]
             second = gen_table(rng, n_rows=rng.randint(1, 3))
             inp = {"table": t if not big else t[:3] + [["...", f"{len(t) - 1} rows"]]}
             want = [("", t[0], t[1:])]
@@ -80,13 +84,22 @@ def explore(ck: Check, n_tables: int, slow_formats: bool) -> None:
             # --- fixed-width text and EBCDIC, described by a generated copybook
             if fixed:
                 widths = [max([len(r[c]) for r in t[1:]] + [1]) + rng.randint(0, 2) for c in range(len(t[0]))]
-                cschema = SchemaMaker.from_json(next(iter(schema_iter(io.StringIO(copybook_for(t, widths))))))
+                if narrow:
+                    widths[0] = 1              # a column exactly one character wide (PIC X(1))
+                try:
+                    cschema = SchemaMaker.from_json(next(iter(schema_iter(io.StringIO(copybook_for(t, widths))))))
+                except BaseException as ex:  # noqa: BLE001
+                    ck.fail("format:copybook", f"the copybook describing the fixed-width copies cannot be loaded: {err_enum(ex)}: {str(ex)[:80]}",
+                            {**inp, "copybook": copybook_for(t, widths)})
+                    continue
                 p_f = tdp / f"t{i}.txt"
                 write_fixed_text(p_f, t, widths)
                 run("fixed-text", lambda: observe_with_schema(COBOL_Text_File(p_f), cschema, t[0], strip=True))
                 p_e = tdp / f"t{i}.ebc"
                 write_ebcdic(p_e, t, widths)
                 run("ebcdic", lambda: observe_with_schema(COBOL_EBCDIC_File(p_e, recfm_class=E.RECFM_F, lrecl=sum(widths)), cschema, t[0], strip=True))
+                # fixed-length records WITHOUT an explicit lrecl: the record length comes from the copybook
+                run("ebcdic-recfm-f-no-lrecl", lambda: observe_with_schema(COBOL_EBCDIC_File(p_e, recfm_class=E.RECFM_F), cschema, t[0], strip=True))
                 # the default record reader (no RECFM given): the record length comes from the schema
                 run("ebcdic-default", lambda: observe_with_schema(COBOL_EBCDIC_File(p_e), cschema, t[0], strip=True))
             # ---- oracle: every format shows the table
